@@ -5,7 +5,7 @@
         nofnat 1 / nofnat 1 = none                     (`1 as f64 / 1 as f64 == 1.0`)
 
    which is what reconciles the length-1 early return (the literal `1.0`) with the loop (`sum_rank / repeat_num`
-   for a lone valid element followed by nulls).  Axiom-free.
+   for a lone valid element followed by nulls).  No axiom is used.
 
    Plan (notes/C08.md, "Still partial" of extension X4), carried out:
    (1) `isort_split_abs`: for an abstract comparator with a null predicate (null vs non-null = Gt, null vs null = Eq,
